@@ -217,19 +217,32 @@ Definition fault_before (c : ccase) (e : ev) : bool :=
   existsb (fun f => (ek f =? 6)%Z && (ev1 f =? 1)%Z && (et f <? et e)%Z) (clog c).
 
 (* cache in front of the barrier: the value of a load x of the same key that completed before
-   the call was invoked, provided no later load of the key completed (a load that completes while
-   the store is down is not written: not required in histories with faults) and the key was not
-   deleted (event kind 5, key in v1) in between *)
+   the call was invoked.  The loader's result is written to the cache some time between the end of
+   the loader (fe) and the return of the loading call (lret); so the value is CERTAINLY gone only
+   if, after lret, a later load of the key was started-and-returned before the call was invoked
+   (not required in histories with store faults: a load that completes while the store is down is
+   not written), or the key was deleted by an operation invoked after lret and completed (event
+   kind 5, key in v1, stamped when the entry is gone) before the call was invoked.  Anything in
+   between is a race of the cache, not of the barrier: either outcome is accepted.  (Under forced
+   schedules fe and lret belong to one atomic step, and this is "no later load / delete between
+   the load and the call".) *)
 Definition cache_hit (c : ccase) (e x : ev) : bool :=
   let l := clog c in
   match find_ev l 2 (ea x) (eop x), find_ev l 0 (ea e) (eop e), op_at c (ea x) (eop x) with
   | Some fe, Some inv, Some ox =>
     (et fe <? et inv)%Z &&
-    (has_fault c ||
-     negb (existsb (fun y => match op_at c (ea y) (eop y) with
-                            | Some oy => same_key ox oy && (ek y =? 2)%Z && (et fe <? et y)%Z && (et y <? et inv)%Z
-                            | None => false end) l)) &&
-    negb (existsb (fun d => (ek d =? 5)%Z && (ev1 d =? okey ox)%Z && (et fe <? et d)%Z && (et d <? et inv)%Z) l)
+    match find_ev l 3 (ea x) (eop x) with
+    | None => true
+    | Some lret =>
+      (has_fault c ||
+       negb (existsb (fun y => match op_at c (ea y) (eop y), find_ev l 3 (ea y) (eop y) with
+                               | Some oy, Some yret => same_key ox oy && (ek y =? 2)%Z && (et lret <? et y)%Z && (et yret <? et inv)%Z
+                               | _, _ => false end) l)) &&
+      negb (existsb (fun d => (ek d =? 5)%Z && (ev1 d =? okey ox)%Z && (et d <? et inv)%Z &&
+                              match find_ev l 0 (ea d) (eop d) with
+                              | Some dinv => (et lret <? et dinv)%Z
+                              | None => false end) l)
+    end
   | _, _, _ => false
   end.
 
